@@ -136,7 +136,11 @@ def gen_form(rng, light=False):
             big = rng.choice([nl, nl + 1, nl + 15, nl + 17, 100, 200, 300, 400, 430, 600, 5000, 100000])
             txt = "(" + " ".join("#%d=(a%d)" % (j, j) for j in range(nl)) + " #%d=(z) #%d# #0#)" % (big, big)
             # as a quoted literal (the core reader parses the program text) or through read (the library reader)
-            src = ("(length '%s)" % txt) if rng.chance(2, 3) else ('(let ((x (read (open-input-string "%s")))) (if (pair? x) (length x) x))' % txt)
+            alt = '(let ((x (read (open-input-string "%s")))) (if (pair? x) (length x) x))' % txt
+            if rng.chance(2, 3):
+                # "alt" replaces the literal where the whole session is one program text (a read error there is the session's, not the form's)
+                return {"src": "(length '%s)" % txt, "kind": "long-token", "alt": alt}
+            src = alt
         elif kind == 0:
             src = '(string-length "%s")' % body
         elif kind == 1:
@@ -207,6 +211,8 @@ def generate(rng, tier, index, seed):
     cfg = rng.weighted([("asan", 4), ("sim", 3), ("tiny", 3)])
     n = rng.range(8, 24) if cfg == "asan" else rng.range(8, 40)
     forms = [gen_form(rng, cfg == "asan") for _ in range(n)]
+    if mode != "eval":
+        forms = [dict(f, src=f["alt"]) if "alt" in f else f for f in forms]
     q = rng.choice([500, 100, 13, 3])
     # the budget is meant in VM instructions (about 100M): a tick happens every q instructions
     sched = {"default_q": q, "tick_budget": max(2000, 100000000 // q), "default_clock_step": 20}
